@@ -9,6 +9,10 @@ Four parts, one case each:
   truncate  every (or some) proper prefix of a valid text,
   corrupt   single-byte replacements / deletions / insertions of a valid text: Python's json (raw_decode loop) classifies the
             result as a sequence of documents or as malformed; malformed must raise, well-formed must agree as in `input`.
+  pin       (tier P) ak.from_json of a text / k documents / one fault of a valid text, given as str, bytes, file name or pathlib.Path,
+            with and without complex_record_fields: value of the text, and type and value of ak.from_iter(json.loads(text));
+  pout      (tier P) ak.to_json (string and destination file) equals layout.tojson and json.loads of it equals the value;
+            ak.from_json(ak.to_json(a, ...), ...) with the same nan/inf strings and complex_record_fields equals a;
   fuzz      (thorough, san) a bounded libFuzzer session of fuzz/fuzz_json.cpp whose oracle is inside the target.
 """
 import json
@@ -19,6 +23,7 @@ import subprocess
 import sys
 import tempfile
 
+import numpy as np
 from hypothesis import strategies as st
 
 from akgen import gen
@@ -28,15 +33,16 @@ from akshim import describe as D
 from akshim import jsonio as J
 from akshim import layout as L
 from akshim.core import OtherNativeError, call, result_str
-from vlib.common import Violation, HarnessError, VERIF, build_dir
+from vlib.common import Violation, HarnessError, build_dir
 
 ID = "C15"
 MANIFEST = {
     "technique": "property-based testing (Hypothesis) with an independent value model and a differential second driver of the same builder; grammar-based JSON text generation, exhaustive truncation and single-byte corruption of valid texts classified by Python's json; coverage-guided fuzzing (libFuzzer + ASan/UBSan) with a print/parse fixed-point oracle inside the target",
-    "level_text": "Generated-input exploration of Content::tojson (string and file back ends, compact and pretty, all five replacement strings, maxdecimals) over type-directed layouts in random physical encodings against akmodel.decode; of FromJsonString / FromJsonFile over generated JSON texts (escapes, surrogate pairs, white-space and number spellings, int64/double extremes, heterogeneous arrays, records with differing key sets, deep nesting, 0..5 concatenated documents) against json.loads and against the same ArrayBuilder driven from Python; and of every prefix / single-byte corruption of valid texts against Python's json as the judge of well-formedness. Held on everything generated outside the recorded known findings.",
-    "level_note": "Trusted: the RapidJSON stand-in in shim/rapidjson (lexing, number parsing and formatting are its, not RapidJSON's - no byte-exact number format is asserted and defects that only the real lexer would expose are invisible), Python's json module as grammar judge, akmodel.decode as reader of results, the /verif bridge and akshim.jsonio (a re-statement of src/python/io.cpp and builder_fromiter, which cannot be compiled here). ak.to_json / ak.from_json (convert.py: complex_record_fields on input, path-vs-text detection) are out of scope of this tier.",
+    "level_text": "Generated-input exploration of Content::tojson (string and file back ends, compact and pretty, all five replacement strings, maxdecimals) over type-directed layouts in random physical encodings against akmodel.decode; of FromJsonString / FromJsonFile over generated JSON texts (escapes, surrogate pairs, white-space and number spellings, int64/double extremes, heterogeneous arrays, records with differing key sets, deep nesting, 0..5 concatenated documents) against json.loads and against the same ArrayBuilder driven from Python; of every prefix / single-byte corruption of valid texts against Python's json as the judge of well-formedness; and, at the Python level (the unmodified /repo/src/awkward on the awkward._ext emulation), of ak.from_json (str / bytes / file name / pathlib.Path sources, complex_record_fields) against json.loads and ak.from_iter(json.loads(text)), of ak.to_json (string and file destination) against layout.tojson and the model value, and of the round trip ak.from_json(ak.to_json(a)) including complex and non-finite numbers through the user-chosen strings. Held on everything generated outside the recorded known findings.",
+    "level_note": "Trusted: the RapidJSON stand-in in shim/rapidjson (lexing, number parsing and formatting are its, not RapidJSON's - no byte-exact number format is asserted and defects that only the real lexer would expose are invisible), Python's json module as grammar judge, akmodel.decode as reader of results, the /verif bridge and akshim.jsonio (a re-statement of src/python/io.cpp and builder_fromiter, which cannot be compiled here). The tier-P parts run on the awkward._ext emulation (akshim), a model of the binding. Clauses not judged: non-finite numbers without a replacement string (tojson writes nothing for them), texts with duplicate keys / lone surrogates / numbers beyond double range (outside the premise), which objects of an arbitrary text become complex numbers (only the round trip of arrays with complex numbers is judged), round-trip values under maxdecimals.",
 }
-RULE = ("case = (layout description, writer options) | (JSON text, reader options) | (valid text, cut points) | (valid text, byte edits); texts come from "
+RULE = ("case = (layout description, writer options) | (JSON text, reader options) | (valid text, cut points) | (valid text, byte edits) | the same two "
+        "for ak.to_json / ak.from_json (source kind, complex_record_fields); texts come from "
         "generated JSON values rendered with json.dumps variants plus re-spelt strings/numbers/white space; "
         "non-trivial = the text (generated or produced by tojson) nests >= 2 levels and holds a string with an escape or a number that is not an int32, "
         "or (faults) a cut/edit position lies at nesting depth >= 2; distinct by hash of the case")
@@ -53,6 +59,9 @@ ASSUMPTIONS = [
     "documented builder unification: ints beside reals become reals, missing record fields are None (an object may gain keys whose value is None), one document is returned unwrapped, k != 1 documents as an array of k entries, zero documents as an empty array",
     "replacement strings for input are compared by exact equality; the three strings are generated pairwise distinct and NUL-free",
     "ArrayBuilderOptions respect the documented preconditions initial >= 1, resize > 1; FileReadStream buffer sizes >= 4 (RapidJSON asserts that)",
+    "ak.from_json(str): a text of white space only (zero documents) is not recognisably JSON for the text-or-file-name guess, FileNotFoundError is accepted there; every other well-formed text must be read",
+    "ak.from_iter accepts iterables only, so the comparison with ak.from_iter(json.loads(text)) is made for texts whose single document is an array or an object, and for k != 1 documents with the list of the documents (do_parse's documented result)",
+    "complex_record_fields is a tuple of two distinct strings (documented type); a record of the array that has both names among its fields, or a complex number unified with another record type in one union, is outside the judged round trip (documented: such records are read as complex numbers / 'Complex number fields must be numbers')",
 ]
 PLAN = {
     "quick": [{"flavour": "plain", "cases": 20000}, {"flavour": "san", "cases": 5000}],
@@ -62,7 +71,7 @@ PLAN = {
 }
 WALL_CAP = {"quick": 900, "thorough": 3300}
 FORK_EACH = False
-EXPLANATION = ("census keys: part:* (output/input/concat/truncate/corrupt), verdict:* (valid/invalid/unasserted per judged text), has:* features of the "
+EXPLANATION = ("census keys: part:* (output/input/concat/truncate/corrupt/pin/pout), p:* features of tier-P cases (via:str/bytes/file/path, differential = compared with ak.from_iter, roundtrip_*), verdict:* (valid/invalid/unasserted per judged text), has:* features of the "
                "text (records, unions = heterogeneous arrays, escapes, surrogate pairs, non-ASCII, int64/double extremes, deep nesting), out:* features of the layout")
 
 INT64_MIN, INT64_MAX, UINT64_MAX = -2 ** 63, 2 ** 63 - 1, 2 ** 64 - 1
@@ -187,9 +196,45 @@ def _corrupt_case(draw):
     return {"kind": "corrupt", "text": text, "edits": edits, "reader": draw(_reader_opts(sp))}
 
 
+_CX_POOL = ["r", "i", "real", "imag", "re im", "ℜ", 'q"']
+
+
+@st.composite
+def _pin_case(draw):
+    """tier P: a text (valid, k documents, or one fault of a valid text) for ak.from_json, through one of its source kinds"""
+    sp = draw(_specials(1))
+    mode = draw(st.integers(0, 7))
+    fault = None
+    if mode == 0:
+        _, text = draw(JT.concatenated(JT.VCfg(special_strings=[s for s in sp if s is not None]), kmax=3))
+    else:
+        text = draw(_value_and_text(sp))
+        n = len(text.encode("utf-8"))
+        if mode == 1 and n > 0:
+            fault = ["cut", draw(st.integers(0, n - 1))]
+        elif mode == 2 and n > 0:
+            pos, byte = draw(JT.corruptions(text.encode("utf-8"), 1))[0]
+            fault = ["edit", pos, byte, draw(st.sampled_from(["replace", "delete", "insert"]))]
+    cx = list(draw(st.permutations(_CX_POOL))[:2]) if draw(st.integers(0, 2)) == 0 else None
+    return {"kind": "pin", "text": text, "fault": fault, "reader": draw(_reader_opts(sp)), "cx": cx,
+            "via": draw(st.sampled_from(["str", "str", "bytes", "file", "path"])), "highlevel": draw(st.integers(0, 3)) > 0}
+
+
+@st.composite
+def _pout_case(draw):
+    """tier P: ak.to_json of a generated array (string or file destination) and ak.from_json of what it wrote"""
+    base = draw(_output_case())
+    o = base["opts"]
+    if draw(st.integers(0, 2)) > 0 and (o["re"] is None or o["im"] is None):
+        o["re"], o["im"] = list(draw(st.permutations(_CX_POOL))[:2])        # complex_record_fields is a pair or None
+    if o["re"] is None or o["im"] is None:
+        o["re"] = o["im"] = None
+    return {"kind": "pout", "desc": base["desc"], "opts": o, "reader": base["reader"], "tofile": draw(st.integers(0, 2)) == 0}
+
+
 def strategy(tier):
     return st.one_of(_output_case(), _output_case(), _output_case(), _input_case(), _input_case(), _input_case(), _concat_case(),
-                     _truncate_case(), _corrupt_case(), _corrupt_case())
+                     _truncate_case(), _corrupt_case(), _corrupt_case(), _pin_case(), _pout_case())
 
 
 # =========================================================================== seed corpus (examples of /repo/tests, as data) and the fuzz phase
@@ -437,6 +482,9 @@ def jsame(e, o, loose=False, tol=None):
         return e is None and o is None
     if isinstance(e, bool) or isinstance(o, bool):
         return isinstance(e, bool) and isinstance(o, bool) and e == o
+    if isinstance(e, complex) or isinstance(o, complex):
+        return (isinstance(e, (int, float, complex)) and isinstance(o, (int, float, complex)) and not isinstance(e, bool) and not isinstance(o, bool)
+                and M.same_value(e, o))
     if _isnum(e) and _isnum(o):
         if tol is not None and isinstance(e, float) and math.isfinite(e) and isinstance(o, float) and math.isfinite(o):
             if o == 0.0 or (o > 0) == (e > 0):
@@ -893,6 +941,303 @@ def run_corrupt(case):
     return {"tags": sorted(tags), "counts": counts, "nontrivial": base == "valid" and nested, "sample_class": "corrupt"}
 
 
+# =========================================================================== tier P: ak.to_json / ak.from_json / ak.from_iter (/repo/src/awkward on the _ext emulation)
+_PAK = [None]
+
+
+def _pak():
+    if _PAK[0] is None:
+        from checks import pcommon as P
+        A = P.ak()
+        import awkward._ext as E
+        try:
+            E.ArrayBuilder()
+        except NotImplementedError:
+            # the emulation of ak.layout.ArrayBuilder belongs to another check (akshim/builder.py) and may not be merged yet;
+            # ak.from_iter needs ArrayBuilder(initial=, resize=).fromiter(x) / .snapshot() only, which akshim.jsonio.JsonBuilder is
+            E.ArrayBuilder = J.JsonBuilder
+            A.layout.ArrayBuilder = J.JsonBuilder
+        _PAK[0] = (A, P)
+    return _PAK[0]
+
+
+def _poutcome(fn):
+    """pcommon.outcome, plus: the emulated constructors' refusal of a non-Content argument (in the binding: unbox_content's
+    std::invalid_argument, raised in native code) is an exception of the library call, not a harness failure"""
+    A, P = _pak()
+    try:
+        return P.outcome(fn)
+    except TypeError as e:
+        if "must be a Content subtype" in str(e) or "needs a RecordArray" in str(e):
+            return ("TypeError", str(e))
+        raise
+
+
+def _pvalue(x, what):
+    """JSON-level value of what ak.from_json / ak.from_iter returned"""
+    A, P = _pak()
+    lay = x.layout if isinstance(x, (A.Array, A.Record)) else x
+    if isinstance(lay, L.NumpyArray) and lay.parameters.get("__array__") == "char":
+        return json_value_of(lay)          # one unwrapped string document
+    if isinstance(x, (A.Array, A.Record)) or isinstance(lay, L.Content):
+        return P.read(x, what, check_valid=not isinstance(lay, L.Record))[1]
+    return P.pyvalue(x)
+
+
+def _ptype(x):
+    A, P = _pak()
+    if isinstance(x, (A.Array, A.Record)) or isinstance(x, L.Content):
+        return str(A.type(x))
+    return "scalar:" + type(x).__name__
+
+
+def _has_both_keys(v, a, b):
+    if isinstance(v, list):
+        return any(_has_both_keys(x, a, b) for x in v)
+    if isinstance(v, dict):
+        return (a in v and b in v) or any(_has_both_keys(x, a, b) for x in v.values())
+    return False
+
+
+def _type_has(T, pred):
+    if pred(T):
+        return True
+    k = T[0]
+    if k in ("list", "regular", "option"):
+        return _type_has(T[1], pred)
+    if k == "record":
+        return any(_type_has(t, pred) for _, t in T[1])
+    if k == "union":
+        return any(_type_has(t, pred) for t in T[1])
+    return False
+
+
+def run_pin(case):
+    A, P = _pak()
+    data = JT.unpack(case["text"])
+    fault = case.get("fault")
+    if fault:
+        data = data[:fault[1]] if fault[0] == "cut" else JT.apply_corruption(data, fault[1], fault[2], fault[3])
+    reader, cx = case["reader"], case.get("cx")
+    tags = set(["part:pin", "p:" + ("fault" if fault else "text")])
+    judged = classify(data, reader)
+    via = case["via"]
+    if via == "str":
+        try:
+            source = data.decode("utf-8")
+        except UnicodeDecodeError:
+            via = "bytes"
+    if via == "bytes":
+        source = data
+    path = None
+    if via in ("file", "path"):
+        path = _tmpfile() + ".p"
+        with open(path, "wb") as f:
+            f.write(data)
+        import pathlib
+        source = path if via == "file" else pathlib.Path(path)
+    tags.add("p:via:" + via)
+    kw = {"nan_string": reader["nan"], "infinity_string": reader["inf"], "minus_infinity_string": reader["minf"], "initial": reader["initial"],
+          "resize": reader["resize"], "highlevel": case["highlevel"]}
+    if reader.get("file") is not None:
+        kw["buffersize"] = reader["file"]
+    if cx is not None:
+        kw["complex_record_fields"] = (cx[0], cx[1])
+        tags.add("p:complex_record_fields")
+    info = {"text": JT.pack(data), "via": via, "kwargs": {k: v for k, v in kw.items()}}
+    try:
+        outcome, res = _poutcome(lambda: A.from_json(source, **kw))
+    finally:
+        if path is not None and os.path.exists(path):
+            os.unlink(path)
+    tags.add("verdict:" + judged.kind)
+    if via in ("str", "bytes"):
+        # the high-level function has to guess whether a str is a JSON text or a file name: a text of nothing but white space
+        # (zero documents) is not recognisably JSON, so either answer is accepted there
+        if judged.kind == "valid" and not judged.docs:
+            tags.add("unasserted:zero documents as str")
+            return {"tags": sorted(tags), "nontrivial": False, "sample_class": "pin"}
+    if judged.kind == "unasserted":
+        tags.add("unasserted:" + judged.reason)
+        return {"tags": sorted(tags), "nontrivial": False, "sample_class": "pin"}
+    if judged.kind == "invalid":
+        if outcome == "ok":
+            raise Violation("p:accepted_malformed|" + judged.reason, "ak.from_json accepts malformed JSON (%s) and yields %s" % (judged.reason, show(_pvalue(res, "from_json"))),
+                            expected=dict(info, judge="invalid: " + judged.reason), observed=show(_pvalue(res, "from_json")))
+        return {"tags": sorted(tags), "nontrivial": False, "sample_class": "pin"}
+    docs, flags = judged.docs, judged.flags
+    if outcome != "ok":
+        shape = outcome
+        if outcome == "FileNotFoundError" and data.lstrip(b" \t\r\n")[:1] == b"-":
+            shape = "leading_minus"          # a text whose first document is a negative number is taken for a file name
+        elif outcome == "TypeError" and via == "bytes" and data.lstrip(b" \t\r\n")[:1] == b"-":
+            shape = "leading_minus"
+        elif "filled more than once" in res and _has_nul_key(docs) and _cstring_keys(docs) is None:
+            raise Violation("rejected_wellformed:nul_key_cut_collision", "well-formed JSON is rejected: %s" % res[:200], expected=info, observed=res[:300])
+        raise Violation("p:rejected_wellformed|" + shape, "ak.from_json rejects well-formed JSON: %s: %s" % (outcome, res[:200]),
+                        expected=dict(info, documents=len(docs)), observed=[outcome, res[:300]])
+    if case["highlevel"] and isinstance(res, (np.ndarray, L.Content)):
+        raise Violation("p:not_highlevel|" + type(res).__name__, "ak.from_json(highlevel=True) returns a %s, not an ak.Array / ak.Record / scalar" % type(res).__name__,
+                        expected=info, observed=repr(res)[:300])
+    raw = docs[0] if len(docs) == 1 else docs
+    if cx is not None and _has_both_keys(raw, cx[0], cx[1]):
+        # which objects become complex numbers is decided per RecordArray after unification; exercised by the round trip of
+        # `pout` cases, where the array says where the complex numbers are
+        tags.add("unasserted:text has objects with both complex field names")
+        return {"tags": sorted(tags), "nontrivial": False, "sample_class": "pin"}
+    expected = _apply_specials(raw, reader)
+    observed = _pvalue(res, "from_json")
+    if len(docs) != 1:
+        tags.add("documents:2+")
+        if not isinstance(observed, list) or len(observed) != len(docs):
+            raise Violation("p:documents:count", "%d concatenated documents must yield %d entries" % (len(docs), len(docs)), expected=info, observed=show(observed))
+    if not jsame(expected, observed, loose=True):
+        shape = _known_shape(raw, expected, observed, reader, flags)
+        raise Violation("anchor:%s" % (shape or "p:from_json"), "ak.from_json(text) does not have the value of the text",
+                        expected=dict(info, value=show(expected)), observed=show(observed))
+    # ---- the property's own words: ak.from_iter(json.loads(text))
+    iterable = None
+    if "uint64_range" in flags:
+        tags.add("no_differential:uint64")
+    elif len(docs) != 1:
+        iterable = [_apply_specials(d, reader) for d in docs]        # k documents are the k entries of one array
+    elif isinstance(raw, (list, dict)):
+        iterable = expected
+    else:
+        tags.add("no_differential:scalar document")                  # from_iter takes iterables only
+    if iterable is not None:
+        okind, other = P.outcome(lambda: A.from_iter(iterable, highlevel=case["highlevel"], initial=reader["initial"], resize=reader["resize"]))
+        if okind != "ok":
+            raise Violation("p:from_iter_raised|" + okind, "ak.from_iter(json.loads(text)) raises %s: %s while ak.from_json(text) succeeds" % (okind, other[:200]),
+                            expected=info, observed=[okind, other[:300]])
+        ta, tb = _ptype(res), _ptype(other)
+        va, vb = _pvalue(res, "from_json"), _pvalue(other, "from_iter")
+        if ta != tb:
+            raise Violation("p:differential:type", "ak.from_json(text) and ak.from_iter(json.loads(text)) have different types",
+                            expected=dict(info, type=tb, value=show(vb)), observed={"type": ta, "value": show(va)})
+        if not M.same_value(va, vb, key_order=True):
+            raise Violation("p:differential:value", "ak.from_json(text) and ak.from_iter(json.loads(text)) have different values",
+                            expected=dict(info, value=show(vb)), observed=show(va))
+        tags.add("p:differential")
+    mx, tf, _ = text_features(data)
+    return {"tags": sorted(tags), "nontrivial": mx >= 2 and bool(tf & {"escape", "non_int32_number"}), "sample_class": "pin"}
+
+
+def _rt_image(v, o, keep_complex):
+    """value that ak.from_json(ak.to_json(a, ...), ...) with the same strings must have"""
+    if v is None or isinstance(v, (bool, int)):
+        return v
+    if isinstance(v, float):
+        return v
+    if isinstance(v, str):
+        return _apply_specials(v, {"nan": o["nan"], "inf": o["inf"], "minf": o["minf"]})
+    if isinstance(v, complex):
+        return v if keep_complex else {o["re"]: v.real, o["im"]: v.imag}
+    if isinstance(v, bytes):
+        return _rt_image(v.decode("utf-8", "surrogateescape"), o, keep_complex)
+    if isinstance(v, tuple):
+        return {str(i): _rt_image(x, o, keep_complex) for i, x in enumerate(v)}
+    if isinstance(v, dict):
+        return {k: _rt_image(x, o, keep_complex) for k, x in v.items()}
+    if isinstance(v, list):
+        return [_rt_image(x, o, keep_complex) for x in v]
+    raise HarnessError("value the round-trip image does not know: %r" % (v,))
+
+
+def run_pout(case):
+    A, P = _pak()
+    desc, o = case["desc"], case["opts"]
+    T, V = M.decode(desc)
+    img = _Image(o)
+    expected = img.of(V)
+    tags = set(["part:pout"])
+    from checks.common import classpath
+    region = classpath(desc, 3)
+    lay = D.build(desc)
+    arr = A.Array(lay)
+    cx = (o["re"], o["im"]) if o["re"] is not None and o["im"] is not None else None
+    kw = {"pretty": o["pretty"], "maxdecimals": o["maxdecimals"], "nan_string": o["nan"], "infinity_string": o["inf"],
+          "minus_infinity_string": o["minf"], "complex_record_fields": cx}
+    lkw = {"pretty": o["pretty"], "maxdecimals": o["maxdecimals"], "nan_string": o["nan"], "infinity_string": o["inf"],
+           "minus_infinity_string": o["minf"], "complex_real_string": o["re"], "complex_imag_string": o["im"]}
+    path = (_tmpfile() + ".pout") if case["tofile"] else None
+    try:
+        if path is None:
+            outcome, text = P.outcome(lambda: A.to_json(arr, **kw))
+        else:
+            tags.add("p:destination_file")
+            outcome, text = P.outcome(lambda: A.to_json(arr, path, buffersize=o["buffersize"], **kw))
+            if outcome == "ok":
+                if text is not None:
+                    raise Violation("p:to_json_file_returns|" + region, "ak.to_json with a destination must return None", observed=repr(text)[:200])
+                with open(path, "rb") as f:
+                    text = f.read().decode("utf-8", "surrogateescape")
+    finally:
+        if path is not None and os.path.exists(path):
+            os.unlink(path)
+    if img.complex and cx is None:
+        tags.add("out:complex_without_strings")
+        if outcome == "ok":
+            raise Violation("p:complex_unrefused|" + region, "ak.to_json of complex values without complex_record_fields must raise", observed=text[:300])
+        return {"tags": sorted(tags), "nontrivial": False, "sample_class": "pout"}
+    if outcome != "ok":
+        raise Violation("p:to_json_raised|" + region, "ak.to_json raised on a valid array: %s: %s" % (outcome, text[:200]), observed=[outcome, text[:300]])
+    low = lay.tojson(**lkw)
+    if text != low:
+        raise Violation("p:to_json_vs_layout|" + region, "ak.to_json(array) and array.layout.tojson with the same options differ", expected=low[:400], observed=text[:400])
+    for k in ("complex", "bytes", "tuples", "nonfinite", "big_uint"):
+        if getattr(img, k):
+            tags.add("out:" + k)
+    if img.nonfinite_unreplaced:
+        tags.add("unasserted:non-finite without replacement string")
+        return {"tags": sorted(tags), "nontrivial": False, "sample_class": "pout"}
+    try:
+        parsed = _loads_strict(text)
+    except ValueError as e:
+        raise Violation("p:illformed|" + region, "ak.to_json output is not well-formed JSON: %s" % e, expected=show(expected), observed=text[:600])
+    if not jsame(expected, parsed, tol=o["maxdecimals"]):
+        shape = "uint64_wrap" if img.big_uint and jsame(_wrap_uint64(expected), parsed, tol=o["maxdecimals"]) else "p:value"
+        raise Violation("output:%s|%s" % (shape, region), "json.loads(ak.to_json(a)) differs from ak.to_list(a)", expected=show(expected), observed=show(parsed))
+    # ---- ak.from_json(ak.to_json(a)) with the same strings: equals a up to the builder's unification
+    names_clash = cx is not None and _type_has(T, lambda t: t[0] == "record" and not t[2] and cx[0] in [n for n, _ in t[1]] and cx[1] in [n for n, _ in t[1]])
+    def _under_option(t):
+        return t[1] if t[0] == "option" else t
+
+    def _cx_meets_record(t):
+        if t[0] != "union":
+            return False
+        ms = [_under_option(m) for m in t[1]]
+        return any(m[0] == "prim" and m[1].startswith("complex") for m in ms) and any(m[0] == "record" for m in ms)
+    complex_beside_record = img.complex and _type_has(T, _cx_meets_record)
+    rkw = {"nan_string": o["nan"], "infinity_string": o["inf"], "minus_infinity_string": o["minf"], "complex_record_fields": cx,
+           "initial": case["reader"]["initial"], "resize": case["reader"]["resize"]}
+    okind, back = _poutcome(lambda: A.from_json(text, **rkw))
+    if names_clash or complex_beside_record:
+        # a user record with both field names is (documented) read as a complex number, and a complex number unified with
+        # another record in one RecordArray has option-type parts ("Complex number fields must be numbers"): not judged
+        tags.add("unasserted:records interfere with complex_record_fields")
+        if okind not in ("ok", "ValueError"):
+            raise Violation("p:roundtrip_raised|" + okind, "ak.from_json(ak.to_json(a)) raises %s: %s" % (okind, back[:200]), expected=text[:400], observed=[okind, back[:300]])
+        return {"tags": sorted(tags), "nontrivial": False, "sample_class": "pout"}
+    if okind != "ok":
+        raise Violation("p:roundtrip_raised|%s|%s" % (okind, "complex" if img.complex else "plain"), "ak.from_json(ak.to_json(a)) raises %s: %s" % (okind, back[:200]),
+                        expected={"text": text[:400], "kwargs": rkw}, observed=[okind, back[:300]])
+    if not isinstance(back, A.Array):
+        raise Violation("p:not_highlevel|" + type(back).__name__, "ak.from_json of a JSON array returns a %s, not an ak.Array" % type(back).__name__,
+                        expected={"text": text[:400], "kwargs": rkw}, observed=repr(back)[:300])
+    if o["maxdecimals"] is None:
+        want = _rt_image(V, o, keep_complex=True)
+        got = _pvalue(back, "from_json")
+        if not jsame(want, got, loose=True):
+            shape = "uint64_wrap" if img.big_uint else ("complex" if img.complex else "plain")
+            raise Violation("p:roundtrip:%s|%s" % (shape, region), "ak.from_json(ak.to_json(a)) differs from a", expected=show(want), observed=show(got))
+        tags.add("p:roundtrip_value")
+        if img.complex:
+            tags.add("p:roundtrip_complex")
+    mx, tf, _ = text_features(text.encode("utf-8", "surrogateescape"))
+    return {"tags": sorted(tags), "nontrivial": mx >= 2 and bool(tf & {"escape", "non_int32_number"}), "sample_class": "pout"}
+
+
 # =========================================================================== libFuzzer phase
 _FUZZ_SEEDS = [b"[1,2,3]", b'{"x":1,"y":[1.5,null,"a\\u00e9"]}', b"[[1.1,2.2],[],[3]] [4]", b'[{"a":1},{"b":[true,false]}]', b'"\\ud83d\\ude00"',
                b"[9223372036854775807,-9223372036854775808,1e308,-0.0]", b'[1,"a",[2],{"b":null}]', b"1 2 3", b"", b"[[[[[[1]]]]]]"]
@@ -1004,6 +1349,10 @@ def run_case(case):
         return run_truncate(case)
     if k == "corrupt":
         return run_corrupt(case)
+    if k == "pin":
+        return run_pin(case)
+    if k == "pout":
+        return run_pout(case)
     if k == "fuzz":
         return run_fuzz(case)
     if k == "fuzzinput":
